@@ -27,11 +27,13 @@ AREA = "Tiering"
 P = "Arc.Tiering.Props"
 O = "Arc.Tiering.Obligations"
 THEOREMS = [(P, "C12_readable"), (P, "C12_once_after_complete"), (P, "C12_once_after_reconcile"), (P, "C12_once_after_cycle"),
-            (P, "C12_cold_orphan_refuted"), (O, "C12_migrate_order_obligations"), (O, "C12_model_steps_are_code_steps")]
+            (P, "C12_cold_orphan_refuted"), (P, "C12_overlap_safe"), (P, "C12_unserialized_overlap_safe"),
+            (P, "C12_unserialized_overlap_rollback_refuted"), (O, "C12_migrate_order_obligations"), (O, "C12_model_steps_are_code_steps")]
 MODULES = [P, O]
 TIE_NAME = ("C12 correspondence (tiering.Migrator.MigrateFile / ReconcileOrphanedFiles / Manager.RunMigrationCycle + "
             "api.QueryHandler.buildMultiTierReadParquet vs Arc.Tiering.Model) / Params_Tiering")
 SIGNATURE = "migration-interrupted-between-copy-and-metadata-update"
+SIGNATURE_OVERLAP = "overlapping-migrations-rollback-deletes-shared-cold-copy"
 
 PKG = "./internal/api/"
 HARNESS = {"internal/api/zz_tiering_verif_test.go": "harness/tiering/tiering_verif_test.go",
@@ -39,10 +41,10 @@ HARNESS = {"internal/api/zz_tiering_verif_test.go": "harness/tiering/tiering_ver
            "internal/license/zz_verif_license.go": "harness/license/verif_license.go"}
 REWRITES = {"internal/tiering/migrator.go": [
     # crash points (anchored on the step comments of MigrateFile)
-    ("	// Perform the migration using streaming", "	verifPoint(\"before_copy\")\n	// Perform the migration using streaming", 1),
-    ("	// Update tier metadata\n", "	verifPoint(\"after_copy\")\n	// Update tier metadata\n", 1),
-    ("	// Delete from source tier\n", "	verifPoint(\"after_meta\")\n	// Delete from source tier\n", 1),
-    ("	// Record success\n", "	verifPoint(\"after_delete\")\n	// Record success\n", 1),
+    ("	// Perform the migration using streaming", "	verifPointM(m, \"before_copy\")\n	// Perform the migration using streaming", 1),
+    ("	// Update tier metadata\n", "	verifPointM(m, \"after_copy\")\n	// Update tier metadata\n", 1),
+    ("	// Delete from source tier\n", "	verifPointM(m, \"after_meta\")\n	// Delete from source tier\n", 1),
+    ("	// Record success\n", "	verifPointM(m, \"after_delete\")\n	// Record success\n", 1),
     # fallible operations (arguments are kept as written)
     ("m.copyFileStreaming(ctx, ", "verifCopy(m, ctx, ", 1),
     ("m.manager.metadata.UpdateTier(", "verifUpdateTier(m.manager.metadata, ", 1),
@@ -84,6 +86,12 @@ def translate_params():
     dels = [e for e in rc["events"] if e["callee"] == "Delete"]
     listed = [e for e in rc["events"] if e["callee"] == "GetRecentlyMigratedFiles"]
     only_hot = bool(dels) and all(e["recv"] == "hotBackend" for e in dels) and bool(listed) and all("TierCold" in e["args"][1] for e in listed)
+    # since 6b8445f: the path is registered in Manager.migrating before the copy, released by a defer
+    guard = ctxcalls("internal/tiering/migrator.go", "MigrateFile", "^(LoadOrStore|copyFileStreaming|Delete)$")["events"]
+    los = [e for e in guard if e["callee"] == "LoadOrStore" and "migrating" in e["recv"] and e["in_if_init"] and not e["path"]]
+    cps = [e for e in guard if e["callee"] == "copyFileStreaming"]
+    rel = [e for e in guard if e["callee"] == "Delete" and "migrating" in e["recv"] and any(c["kind"] == "defer" for c in e["path"])]
+    serialized = bool(los and cps and rel and los[0]["line"] < cps[0]["line"] and "candidate.Path" in los[0]["args"][0])
     body = "(* GENERATED by tools/props/C12.py from the current /repo sources - do not edit *)\n"
     body += "From Coq Require Import List.\nFrom Arc Require Import Tiering.Model.\nImport ListNotations.\n"
     body += "(* success-path order of copy / UpdateTier / source delete in Migrator.MigrateFile *)\n"
@@ -91,8 +99,9 @@ def translate_params():
     body += "Definition metadata_failure_deletes_destination : bool := %s.\n" % cbool(rollback)
     body += "Definition copy_failure_returns_before_metadata : bool := %s.\n" % cbool(copy_ret)
     body += "Definition reconcile_deletes_only_hot : bool := %s.\n" % cbool(only_hot)
+    body += "Definition migrate_file_serialized_per_path : bool := %s.\n" % cbool(serialized)
     vlib.write_params("Params_Tiering", body)
-    return {"migrate_file_order": order, "rollback": rollback, "copy_failure_returns": copy_ret, "reconcile_only_hot": only_hot}
+    return {"migrate_file_order": order, "rollback": rollback, "copy_failure_returns": copy_ret, "reconcile_only_hot": only_hot, "serialized_per_path": serialized}
 
 
 # ---------------------------------------------------------------------------------------
@@ -164,6 +173,42 @@ def gen_cases(rng, nfiles_total, tier):
     return cases
 
 
+def interleavings():
+    """all 70 interleavings of A's four steps (start, copy, UpdateTier, delete hot) with B's four"""
+    out = []
+
+    def go(pre, na, nb):
+        if na == 0 and nb == 0:
+            out.append(pre)
+            return
+        if na:
+            go(pre + "A", na - 1, nb)
+        if nb:
+            go(pre + "B", na, nb - 1)
+    go("", 4, 4)
+    return out
+
+
+def overlap_cases(rng, tier):
+    """every interleaving of two migrations of the same file, fault-free and with a failing UpdateTier in one of them;
+    another file is already cold (so the cold directory is globbed) and one stays hot; reconciliation follows"""
+    cases, ctr = [], [100000]
+    scheds = interleavings()
+    faults = [(None, True), (None, None), (True, None), (None, False), (True, True)]
+    for n, (fa, fb) in enumerate(faults):
+        if tier == "thorough":
+            pick = scheds
+        else:
+            pick = rng.sample(scheds, 40 if n == 0 else (20 if n == 1 else 8))
+            for must in ("AAAABBBB", "ABABABAB", "AABBBBAA", "AAABBBBA", "ABBBBAAA", "BBAAAABB"):
+                if n <= 1 and must not in pick:
+                    pick.append(must)
+        for sch in pick:
+            files = gen_files(rng, 3, ctr)
+            cases.append({"files": files, "ops": [("migrate", 0, ("done",)), ("overlap", 1, sch, fa, fb), ("reconcile",)], "expect_once": True})
+    return cases
+
+
 def witness_cases():
     f = [[10, 11], [20]]
     return [{"id": 900000, "files": f, "ops": [("migrate", 0, ("done",)), ("migrate", 1, ("crash", 1)), ("reconcile",)], "expect_once": True,
@@ -176,6 +221,11 @@ def witness_cases():
 
 def op_to_harness(o):
     d = {"op": o[0], "file": 0, "outcome": {"kind": "done", "k": 0, "rollback_ok": True}}
+    if o[0] == "overlap":
+        _, f, sched, fa, fb = o
+        d.update({"file": f, "sched": sched, "fault_a": "metafail" if fa is not None else "", "fault_b": "metafail" if fb is not None else "",
+                  "rollback_ok_a": bool(fa), "rollback_ok_b": bool(fb)})
+        return d
     if o[0] == "migrate":
         d["file"] = o[1]
         oc = core(o[2])
@@ -188,13 +238,20 @@ def to_harness(c):
     return {"id": c["id"], "files": c["files"], "ops": [op_to_harness(o) for o in c["ops"]]}
 
 
+def overlap_fault(c):
+    """two overlapping migrations of one file, one of them with a failing UpdateTier"""
+    return any(o[0] == "overlap" and (o[3] is not None or o[4] is not None) for o in c["ops"])
+
+
 def excluded_class(c):
-    return any(o[0] == "migrate" and unsafe(tuple(o[2])) for o in c["ops"])
+    return any((o[0] == "migrate" and unsafe(tuple(o[2]))) or (o[0] == "overlap" and (o[3] is False or o[4] is False)) for o in c["ops"])
 
 
 def nontrivial(c):
     """a crash or step failure strictly inside a migration (after its first, before its last durable step)"""
     for o in c["ops"]:
+        if o[0] == "overlap":
+            return True
         if o[0] == "migrate":
             oc = core(o[2])
             if oc in (("crash", 1), ("crash", 2), ("metafail", True), ("metafail", False), ("delfail",)) or oc[0] == "midstream":
@@ -202,7 +259,18 @@ def nontrivial(c):
     return False
 
 
+def cfault(f):
+    return "None" if f is None else "(Some %s)" % cbool(f)
+
+
 def cop(o):
+    if o[0] == "overlap":
+        _, f, sched, fa, fb = o
+        return "(XOverlap %s %s %s %s)" % (cn(f + 1), clist([cbool(ch == "A") for ch in sched]), cfault(fa), cfault(fb))
+    return "(XTop %s)" % ctop(o)
+
+
+def ctop(o):
     if o[0] == "migrate":
         oc = core(o[2])      # the migration-history rows are not part of the model state: a failed insert changes nothing
         m = {"done": "MDone", "copyfail": "MCopyFail", "midstream": "MCopyFail", "delfail": "MDelFail"}.get(oc[0])
@@ -298,7 +366,7 @@ def warm():
 
 
 def jsonable(c):
-    return dict(c, ops=[list(o[:2]) + ([list(o[2])] if len(o) > 2 else []) for o in c["ops"]])
+    return dict(c, ops=[list(o) if o[0] == "overlap" else list(o[:2]) + ([list(o[2])] if len(o) > 2 else []) for o in c["ops"]])
 
 
 def run(res, tier, seed):
@@ -310,7 +378,11 @@ def run(res, tier, seed):
         res.stage("translate_params", t0)
     res.cov["params"] = params
     # the Go harness runs while coqc checks the theorems
-    cases = witness_cases() + gen_cases(rng, 18 if tier == "quick" else 400, tier)
+    cases = witness_cases() + overlap_cases(rng, tier) + gen_cases(rng, 10 if tier == "quick" else 400, tier)
+    for i, c in enumerate(cases):
+        c.setdefault("id", i)
+        if c["id"] < 900000:
+            c["id"] = i
     from concurrent.futures import ThreadPoolExecutor
     pool = ThreadPoolExecutor(max_workers=1)
     t1 = time.time()
@@ -346,7 +418,8 @@ def run(res, tier, seed):
     kinds = {}
     for c in cases:
         for o in c["ops"]:
-            k = o[0] if o[0] != "migrate" else "migrate:" + ":".join(str(x) for x in o[2])
+            k = o[0] if o[0] not in ("migrate", "overlap") else (("migrate:" + ":".join(str(x) for x in o[2])) if o[0] == "migrate" else
+                                                                  "overlap:%s/%s" % (o[3], o[4]))
             kinds[k] = kinds.get(k, 0) + 1
     res.cov["histogram"] = {"ops": kinds, "files": {str(n): sum(1 for c in cases if len(c["files"]) == n) for n in range(1, 7)},
                             "expect_once": sum(1 for c in cases if c["expect_once"]), "excluded_class": sum(1 for c in cases if excluded_class(c)),
@@ -354,24 +427,42 @@ def run(res, tier, seed):
     res.cov["samples"] = [{"case": jsonable(cases[i]), "final": out[i]["obs"][-1]} for i in (0, len(cases) // 2)]
 
     known = [k for k in vlib.known_for("C12") if k.get("signature") == SIGNATURE]
-    reproduced, reported = 0, False
-    n_bad = sum(1 for i in orf if not (excluded_class(cases[i]) and known and i in morf and i not in dis))
+    known_ov = [k for k in vlib.known_for("C12") if k.get("signature") == SIGNATURE_OVERLAP]
+
+    def is_known(i):
+        """oracle failure in a listed class that the model predicts exactly"""
+        if i in dis or i not in morf:
+            return None
+        c = cases[i]
+        if overlap_fault(c) and known_ov:
+            return "overlap"
+        if excluded_class(c) and known:
+            return "orphan"
+        return None
+    reproduced = {"orphan": 0, "overlap": 0}
+    reported = False
+    n_bad = sum(1 for i in orf if not is_known(i))
     for i in sorted(orf):
         c = cases[i]
-        if excluded_class(c) and known and i in morf and i not in dis:
-            reproduced += 1
+        cls = is_known(i)
+        if cls:
+            reproduced[cls] += 1
             continue
         if len(res.violations) < 3:
             res.violation("a file unreadable or a row visible twice after a migration history (case %s; %d such cases)" % (c["id"], n_bad),
                           {"kind": "oracle-failure", "case": jsonable(c), "observed": out[i]["obs"], "how_to_replay": "python3 tools/check.py C12 --replay <this file>"})
         reported = True
-    if reproduced:
+    if reproduced["orphan"]:
         res.known_finding("a migration interrupted between the cold copy and the metadata update leaves a cold orphan that ReconcileOrphanedFiles never removes; "
-                          "the multi-tier read returns its rows twice until the next migration cycle retries the file (%d generated histories incl. the witness)" % reproduced)
+                          "the multi-tier read returns its rows twice until the next migration cycle retries the file (%d generated histories incl. the witness)" % reproduced["orphan"])
+    if reproduced["overlap"]:
+        res.known_finding("two overlapping migrations of one file: a failed metadata update in one of them rolls back by deleting the cold copy the other one commits; "
+                          "the file ends up in neither tier (%d forced interleavings)" % reproduced["overlap"])
     res.cov["known_finding_cases"] = reproduced
     if failed and not reported:
         res.violation("proof obligation(s) no longer check: " + "; ".join(x for _, x in failed),
                       {"kind": "obligation-failed", "theorems": [t for t, _ in failed], "detail": [x for _, x in failed], "params": params}, no_input=True, suffix="obligation")
+    # inside a known-finding class a passing oracle means the finding was repaired: no alarm
     real_dis = [i for i in sorted(dis) if not (excluded_class(cases[i]) and i not in orf)]
     if real_dis:
         c = cases[real_dis[0]]
@@ -400,7 +491,7 @@ def replay(res, path):
         print("replay file names no concrete case:", obj.get("summary"))
         return 1
     c = dict(c, id=0)
-    c["ops"] = [tuple(o[:2]) + ((tuple(o[2]),) if len(o) > 2 else ()) for o in c["ops"]]
+    c["ops"] = [tuple(o) if o[0] == "overlap" else tuple(o[:2]) + ((tuple(o[2]),) if len(o) > 2 else ()) for o in c["ops"]]
     translate_params()
     out = run_impl([c], "replay")
     r = eval_cases([c], out, "Replay_C12")
